@@ -688,18 +688,35 @@ def check_sample_banks(facts, out):
     if dec is None or enc is None:
         return
     add_names, normal_names = set(), set()
+    dinits = H.binding_inits(dec)
+
+    def names_of(e, depth=0, seen=None):
+        """sample-name constants an expression may denote (through local bindings / tables)"""
+        seen = seen or set()
+        res = set()
+
+        def v(n, anc):
+            if n.get('k') == 'path' and n.get('name', '').startswith('HIT_'):
+                res.add(n['name'])
+            if n.get('k') == 'path' and n.get('name') == 'File':
+                res.add('File')
+            if n.get('k') == 'local' and n['name'] not in seen and depth < 4:
+                seen.add(n['name'])
+                for init in dinits.get(n['name'], []):
+                    res.update(names_of(init, depth + 1, seen))
+        H.walk(e, v)
+        return res
 
     def visit(n, anc):
         if n.get('k') == 'call' and n['f'].get('k') == 'path' and n['f'].get('def', '').endswith('HitSampleInfo::new') \
                 and len(n['args']) == 4:
-            nm = H.peel(n['args'][0])
             bank = H.peel(n['args'][1])
-            name = nm.get('name') if nm.get('k') == 'path' else ('File' if 'File' in repr(nm) else None)
+            names = names_of(n['args'][0])
             fc = H.field_chain(bank)
             if fc and fc[1] == ['bank_for_addition']:
-                add_names.add(name)
+                add_names.update(names)
             elif fc and fc[1] == ['bank_for_normal']:
-                normal_names.add(name)
+                normal_names.update(names)
     H.walk(dec['body'], visit)
     out.anchor('KT', 'decoder addition-bank sample names', len(add_names) >= 3, str(sorted(add_names)))
     inits = H.binding_inits(enc)
@@ -734,7 +751,8 @@ def check_sample_banks(facts, out):
                 return res[0]
         return None
     fa = filter_excludes('add_bank')
-    ok = bool(fa) and fa[0] is True and fa[1] == {'HIT_NORMAL', 'File'}
+    expected_excl = (normal_names | {'File'}) if normal_names else {'HIT_NORMAL', 'File'}
+    ok = bool(fa) and fa[0] is True and fa[1] == expected_excl and not (add_names & expected_excl)
     out.add('KT-K6', 'encode::get_sample_bank', 'addition-bank-source', 'src/encode.rs', ok,
             '' if ok else ('the addition bank is taken from the first sample that is %s %s; the decoder gives the '
                            'addition bank to %s only (a file sample always carries the normal bank)') % (
